@@ -6,7 +6,7 @@ from .. import core, frame, gen, lab
 PROP = "C13"
 PER_FILE = 40
 
-VALID_VALUES = ["7", "0", "1", "42", "4294967295", "65536", "007", "123456789"]
+VALID_VALUES = ["7", "0", "1", "42", "4294967295", "65536", "007", "123456789", "00000000001", "0000000000000042", "04294967295"]
 UNUSABLE_VALUES = ["x", '"s"', "foo(1)", "x.y", "true", "1.5", "id", '"7"', "some_id + 1", "REF_ID"]
 # safety assertions only: out-of-range / non-decimal literals, and values outside the "simple value" grammar (DESIGN 4.3)
 AMBIGUOUS_VALUES = ["4294967296", "0x10", "10u32", "1_0", "99999999999", "0b11", "1e3", "-1", "&n"]
@@ -143,9 +143,11 @@ def main(tier):
     jobs = []
     # a statement carrying ref = 4294967295 (correctly) makes every inserting run on its tree fail with "range
     # exhausted": such statements live in files that hold no statement needing a reference.
-    high = [c for c in cases if c[2] and c[2][1] == "4294967295"]
-    hfill = [c for c in cases if c[1] != "none" and not (c[2] and c[2][1] == "4294967295")][:len(high) * 2]
-    low = [c for c in cases if not (c[2] and c[2][1] == "4294967295")]
+    def is_top(c):
+        return bool(c[2]) and c[2][0] == "valid" and c[2][1].isdigit() and int(c[2][1]) >= 4294960000
+    high = [c for c in cases if is_top(c)]
+    hfill = [c for c in cases if c[1] != "none" and not is_top(c)][:len(high) * 2]
+    low = [c for c in cases if not is_top(c)]
     for n, i in enumerate(range(0, len(low), PER_FILE)):
         jobs.append((built, "%d-%d" % (ck.seed, n), low[i:i + PER_FILE], "\r\n" if n % 4 == 3 else "\n"))
     hi = high + hfill
